@@ -50,6 +50,11 @@
 (*                  Isolation violated through the shared file position    *)
 (*                  by interleaving two members.                           *)
 (*                                                                         *)
+(* Finding control: __iter__ as written (IterYieldsAll = FALSE) refines    *)
+(* the reference only with the deviation IterSingleLine = TRUE; with       *)
+(* IterSingleLine = FALSE TLC reports SameResult violated by a single      *)
+(* list(member) on a member with two lines (thorough tier runs it).        *)
+(*                                                                         *)
 (* This module is about ONE archive whose file does not change.  What      *)
 (* happens when the process opens several archives under the same path     *)
 (* name (file rewritten / renamed into place, earlier members left         *)
@@ -58,7 +63,8 @@
 EXTENDS ArMemberRef
 
 CONSTANTS Modes,           \* subset of {"shared", "byname"}
-          ClampReadline, PadOdd, SeekFirst
+          ClampReadline, PadOdd, SeekFirst,
+          IterYieldsAll    \* FALSE: __iter__ as written today (yields one line)
 
 VARIABLES arch, mode, pc, table, byname, cur, fp, ret
 
@@ -201,6 +207,16 @@ ReadN(m, n)      == AReadN(m, n)     /\ IRd(m, n)
 ReadLine(m)      == AReadLine(m)     /\ IRl(m, -1)         \* readline(): size=None
 ReadLineN(m, n)  == AReadLineN(m, n) /\ IRl(m, n)
 ReadLines(m)     == AReadLines(m)    /\ IRls(m)
+\* readlines(sizehint): the argument is ignored ("pylint: disable=unused-argument")
+ReadLinesHint(m, h) == AReadLinesHint(m, h, Len(BLineSpans(D(m), pos[m]))) /\ IRls(m)
+\* __iter__: `line = self.readline(); if line: yield line` -- ONE line per iterator (IterYieldsAll =
+\* FALSE, the code today); a generator looping until the empty line would be IRls (IterYieldsAll)
+IIter(m) == IF IterYieldsAll THEN IRls(m)
+            ELSE LET r == RlStep(m, cur[m], fp[H(m)], -1)
+                 IN IApply(m, IRes("l", IF r.buf = <<>> THEN <<>> ELSE <<r.buf>>, 0), r.cur, r.fp)
+\* the reference outcome the implementation is held to: every line, unless the deviation is enabled
+Iter(m) == LET n == Len(BLineSpans(D(m), pos[m])) IN
+           AIter(m, IF IterSingleLine /\ ~IterYieldsAll THEN Lo(1, n) ELSE n) /\ IIter(m)
 Seek(m, off, wh) == ASeek(m, off, wh) /\ ISeek(m, off, wh)
 Tell(m)          == ATell(m)         /\ ITell(m)
 
@@ -210,6 +226,8 @@ Next == \/ Global \/ Header \/ Skip
               \/ \E n \in RdSizes \cup {-1} : ReadN(m, n)
               \/ \E n \in RlSizes \cup {-1} : ReadLineN(m, n)
               \/ \E wh \in 0..2, off \in (0 - SeekMax)..SeekMax : Seek(m, off, wh)
+              \/ \E h \in Hints : ReadLinesHint(m, h)
+              \/ Iter(m)
 
 Spec == Init /\ [][Next]_vars
 \* ret, aret, aidx, am are outputs
